@@ -33,7 +33,7 @@ SPEC = {
     "rule": ("grid cells (format string, output mode, input name) for one group - complete - plus random command lines "
              "with 2-4 groups; non-trivial = invocation with >= 1 format parameter or >= 2 groups or a rejected near-miss, "
              "judged against the model; distinct = distinct argv"),
-    "monitors": ["reject-before-assembly", "write-events", "content-equals-format-output", "printed-output", "process-exit-and-colour", "real-filesystem", "define-meaning"],
+    "monitors": ["reject-before-assembly", "write-events", "content-equals-format-output", "printed-output", "process-exit-and-colour", "real-filesystem", "define-meaning", "colour-off"],
     "min_nontrivial": {"quick": 1500, "thorough": 20000},
     "assumptions": ["driver::drive is the same code the binary runs (hook H2 only makes it reachable from the library)"],
 }
@@ -357,7 +357,10 @@ def real_fs_case(ctx, job, argv, files, plan, ref):
 
 def process_cases(ctx, rng):
     cli = ctx.cli("rel")
-    files = {"main.asm": PROGRAM, "bad.asm": "#d8 undefined_symbol\n"}
+    files = {"main.asm": PROGRAM, "bad.asm": "#d8 undefined_symbol\n",
+             # diagnostics with nested notes (every style the printer has): duplicate declaration, ambiguous match, failed asm block
+             "dup.asm": "x = 1\nx = 2\n",
+             "amb.asm": "#ruledef\n{\n    ld {a: u8} => 0x10 @ a\n    ld {b: i8} => 0x20 @ b\n    m {a} => asm { ld {a} }\n}\nld 5\nm 999\n"}
     for argv, want_status, must, must_not in [
         (["-h"], 0, "Command-Line Usage", None),
         (["--help"], 0, "Command-Line Usage", None),
@@ -368,6 +371,14 @@ def process_cases(ctx, rng):
         (["bad.asm", "-q", "--color=off"], 1, "error", "\x1b["),
         (["bad.asm", "-q", "--color=on"], 1, "\x1b[", None),
         (["main.asm", "-q", "-f", "hexstr", "-p"], 0, "1001", None),
+        (["dup.asm", "-q", "--color=off"], 1, "note:", "\x1b["),
+        (["dup.asm", "--color=off"], 1, "note:", "\x1b["),
+        (["amb.asm", "-q", "--color=off"], 1, "note:", "\x1b["),
+        (["amb.asm", "-q", "-f", "hexstr", "--", "--color=off", "-f", "binary"], 1, "note:", "\x1b["),
+        (["dup.asm", "-q", "--color=on"], 1, "\x1b[", None),
+        (["--help", "--color=off"], 0, "Command-Line Usage", "\x1b["),
+        (["--color=off", "-h"], 0, "Command-Line Usage", "\x1b["),
+        (["main.asm", "-p", "--color=off"], 0, "assembling", "\x1b["),
         (["main.asm", "-q", "-f", "nosuch"], 1, "unknown format", None),
         ([], 1, "no input", None),
     ]:
@@ -375,13 +386,46 @@ def process_cases(ctx, rng):
         ctx.evaluated()
         ctx.monitor("process-exit-and-colour")
         text = res["stdout"] + res["stderr"]
-        bad = res["status"] != want_status or (must and must not in text) or (must_not and must_not in res["stderr"])
+        bad = res["status"] != want_status or (must and must not in text) or (must_not and must_not in text)
         job = {"mode": "process", "argv": ["customasm"] + argv, "files": lib.files_json(files)}
         if bad:
             ctx.violation("cli-process", {"kind": "process-behaviour", "argv": " ".join(argv)[:40]}, job,
                           {"status": want_status, "contains": must, "not": must_not}, {"status": res["status"], "out": text[:300]})
         else:
             ctx.nontrivial_case(repr(argv).encode())
+
+
+def colour_cases(ctx, rng, n):
+    """`--color=off` (anywhere on the command line) over programs that fail in many different ways - mutated corpus
+    programs produce every diagnostic shape (nested notes, candidate lists, asm-block traces): no escape sequence may
+    reach stdout or stderr; with `--color=on` a failing run does use them."""
+    from gen import workload
+    for k in range(n):
+        if ctx.out_of_time():
+            return
+        w = workload.draw(rng, kinds=("mut", "isamut", "corpus"), weights=(6, 2, 1))
+        files = {name: (t if isinstance(t, (str, bytes)) else str(t)) for name, t in w["files"].items()}
+        argv = list(w["roots"]) + rng.choice([["-q"], [], ["-f", "hexstr", "-p"], ["-q", "-f", "annotated", "-p"]])
+        argv.insert(rng.randint(0, len(argv)) if "-f" not in argv else 0, "--color=off")
+        if rng.random() < 0.3:
+            argv += ["--", "-f", "symbols", "-p"]
+        res = runner.run_cli(ctx.cli("rel"), argv, files, cpu_s=10)
+        ctx.evaluated()
+        if res["signal"] is not None or res["wall_timeout"] or res["status"] not in (0, 1):
+            ctx.excluded += 1
+            continue
+        ctx.monitor("colour-off")
+        text = res["stdout"] + res["stderr"]
+        if "\x1b[" in text:
+            m = re.search(r"\x1b\[[0-9;]*m([^\x1b\n]{0,20})", text)
+            ctx.violation("cli-process", {"kind": "colour-off-not-honoured", "before": (m.group(1).strip().split(" ")[0] if m else "?")[:12]},
+                          {"mode": "process", "argv": ["customasm"] + argv, "files": lib.files_json(files)}, {"status": res["status"], "not": "\x1b["},
+                          {"status": res["status"], "out": text[:300]})
+        elif res["status"] == 1:
+            ctx.count("colour-off-failing-runs")
+            if "note:" in text:
+                ctx.count("colour-off-runs-with-notes")
+                ctx.nontrivial_case(("colour" + repr(argv) + w["tag"]).encode())
 
 
 def shard(ctx):
@@ -407,6 +451,7 @@ def shard(ctx):
     ctx.count("grid-cells-done", done)
     if ctx.shard == 0:
         process_cases(ctx, ctx.rng(0, "proc"))
+    colour_cases(ctx, ctx.rng(ctx.shard, "colour"), 25 if ctx.tier == "quick" else 600)
     i = ctx.shard
     while not ctx.out_of_time():
         rng = ctx.rng(i, "multi")
